@@ -27,6 +27,7 @@ def run(out, tier, seed):
     for r in mism:
         if r["prop"] == "C10":
             out.report(features_of(r), r["detail"])
+    ws_common.flush_lex_failures(out)
     if summary:
         out.cov["traces_validated_against_impl"] += summary["workspaces"]
         out.cov["evaluations"] += summary["calls"]
